@@ -98,6 +98,30 @@ def _needs_unitary(variant):
     return variant in ('pure:rayleigh', 'unified:rayleigh')
 
 
+def _conc_battery(env, variant, mats, budgets, n):
+    """concrete side: the real kernels and the real LAPACK - the property itself (Q unitary, Q T Q^H = A up to the deflation tolerance)"""
+    tolf = float(TOL)
+    for name, M in mats:
+        for budget in budgets:
+            Q, T, diag = _run_variant(env, variant, M, budget)
+            Qn, Tn, Mn = cm.as_nested(env, Q), cm.as_nested(env, T), cm.as_nested(env, M)
+            env.eq('Q^H Q = I (%s, budget %d)' % (name, budget), cm_matmul_nested(_herm_nested(Qn), Qn), cm.eye_nested(n), tol=1e-8)
+            R_ = cm_matmul_nested(cm_matmul_nested(Qn, Tn), _herm_nested(Qn))
+            err2 = sum(((a - b) ** 2 for r1, r2 in zip(R_, Mn) for e1, e2 in zip(r1, r2) for a, b in zip(e1, e2)), 0)
+            nrm2 = sum((a * a for r in Mn for e in r for a in e), 0)
+            env.le('||Q T Q^H - A||_F <= 1e3 tol max(1, ||A||_F) (%s, budget %d)' % (name, budget), err2, (1e3 * tolf) ** 2 * max(1.0, nrm2), slack=0.0, abs_slack=1e-22)
+
+
+def _generic(env, n, kind):
+    """a fixed generic n x n matrix (deterministic), real or full quaternion"""
+    import numpy as np
+    rng = np.random.RandomState(1000 + n)
+    G = rng.randn(n, n, 4)
+    if kind == 'real':
+        G[..., 1:] = 0.0
+    return cm.qmat_from_nested(env, [[[float(G[i, j, c]) for c in range(4)] for j in range(n)] for i in range(n)])
+
+
 def similarity(env, variant, n, iters, kind='real'):
     """with the kernels replaced by arbitrary symbolic matrices the update H <- M H M^H, Q <- Q M^H keeps
     T = Q^H A Q as a polynomial identity (no unitarity needed); entries of T that differ from Q^H A Q are
@@ -108,16 +132,8 @@ def similarity(env, variant, n, iters, kind='real'):
         # Hermitian part (deflation decisions are most delicate for normal matrices); budgets 1 and 200
         import numpy as np
         U = env.R.utils
-        tolf = float(TOL)
-        for name, M in [('model input', A), ('Hermitian part of the model input', (A + U.quat_hermitian(A)) * 0.5 + np.diag(np.arange(n)).astype(float) * env.q(1, 0, 0, 0))]:
-            for budget in (max(iters, 1), 200):
-                Q, T, diag = _run_variant(env, variant, M, budget)
-                Qn, Tn, Mn = cm.as_nested(env, Q), cm.as_nested(env, T), cm.as_nested(env, M)
-                env.eq('Q^H Q = I (%s, budget %d)' % (name, budget), cm_matmul_nested(_herm_nested(Qn), Qn), cm.eye_nested(n), tol=1e-8)
-                R_ = cm_matmul_nested(cm_matmul_nested(Qn, Tn), _herm_nested(Qn))
-                err2 = sum(((a - b) ** 2 for r1, r2 in zip(R_, Mn) for e1, e2 in zip(r1, r2) for a, b in zip(e1, e2)), 0)
-                nrm2 = sum((a * a for r in Mn for e in r for a in e), 0)
-                env.le('||Q T Q^H - A||_F <= 1e3 tol max(1, ||A||_F) (%s, budget %d)' % (name, budget), err2, (1e3 * tolf) ** 2 * max(1.0, nrm2), slack=0.0, abs_slack=1e-22)
+        _conc_battery(env, variant, [('model input', A), ('Hermitian part of the model input', (A + U.quat_hermitian(A)) * 0.5 + np.diag(np.arange(n)).astype(float) * env.q(1, 0, 0, 0))],
+                      (max(iters, 1), 200), n)
         return
     rec = _install_stubs(env, n, kind, 'identity', unitary=_needs_unitary(variant))
     try:
@@ -152,9 +168,13 @@ def similarity(env, variant, n, iters, kind='real'):
 
 def composition(env, variant, n, kind='real'):
     """zero iterations: Q = P0^H and T = H0 (composition with the Hessenberg reduction)"""
-    if not env.symbolic:
-        return
     A = env.qarr('a', (n, n), kind)
+    if not env.symbolic:
+        # a full (non-Hessenberg) input, so that the accumulated Q starts from a genuine P0^H: the model input, and the model input
+        # shifted by a fixed generic matrix (the solver's model of this unconstrained path is usually the zero matrix)
+        G = _generic(env, n, kind)
+        _conc_battery(env, variant, [('model input', A), ('model input + fixed generic matrix', A + G)], (3, 200), n)
+        return
     rec = _install_stubs(env, n, kind, 'symbolic')
     try:
         Q, T, diag = _run_variant(env, variant, A, 0)
